@@ -319,6 +319,20 @@ def native_e2e(rng, ns, chunk, jobs, sizes, max_wf, seed, tail_spikes=False):
         w, info, ch = wl.load_waveforms(labels=[10])
         if not np.array_equal(w, traces[(tab["cluster"] == 10).to_numpy()], equal_nan=True):
             bad.append(("loader",))
+        # the running index within each unit (what the loader selects by) counts 0, 1, 2, ... in table order for every unit
+        if "index_within_clusters" in tab.columns:
+            want_iw = tab.groupby("cluster").cumcount().to_numpy()
+            if not np.array_equal(tab["index_within_clusters"].to_numpy(), want_iw):
+                bad.append(("index_within_clusters is not 0..count-1 per unit", tab["index_within_clusters"].to_numpy()[:12].tolist()))
+            for u, k in enumerate(sizes):
+                cl = 10 + 3 * u
+                rows_cl = np.flatnonzero((tab["cluster"] == cl).to_numpy())
+                pick = [j for j in (0, 2, len(rows_cl) - 1) if 0 <= j < len(rows_cl)]
+                if not pick:
+                    continue
+                w2, info2, _ = wl.load_waveforms(labels=[cl], indices=sorted(set(pick)))
+                if not np.array_equal(w2, traces[rows_cl[sorted(set(pick))]], equal_nan=True):
+                    bad.append(("loader with indices", cl, sorted(set(pick)), np.shape(w2)))
         return bad, (tab[["sample", "cluster", "peak_channel"]].to_numpy().copy(), traces.copy())
     finally:
         shutil.rmtree(d, ignore_errors=True)
@@ -326,7 +340,7 @@ def native_e2e(rng, ns, chunk, jobs, sizes, max_wf, seed, tail_spikes=False):
 
 @bounded(PROPERTY, "native_extraction", bound="extract_wfs_array on random traces/geometries (200 cases); end-to-end extract_wfs_cbin -> files -> WaveformsLoader on a 385-channel random recording: ns in {6100, 9000} "
          "x chunk sizes {500, 1000, 3000, ns} x workers {1, 3} x unit sizes below/at/above max_wf, spikes at file edges and in the last 86..128 samples (quick: 4 runs, thorough: 24)",
-         clause="selection counts, table/traces/channels/templates row by row, chunk-size and worker independence, loader")
+         clause="selection counts, table/traces/channels/templates row by row, per-unit running index, chunk-size and worker independence, loader by label and by index")
 def b_native(B):
     rng = np.random.default_rng(B.seed)
     bad = native_gather(rng, 60 if B.tier == "quick" else 400)
